@@ -1,2 +1,108 @@
-/- C11 driver (stub until the model exists) -/
-def main : IO Unit := pure ()
+/- C11 driver: op lines in, observable lines out (same format as props/C11/harness.cpp).
+   `c11` runs the model of the repaired module.cpp, `c11 orig` the model of the code before
+   patches/C11-01 (used only to validate the tie against an unpatched tree). -/
+import TboxModel.Util
+import TboxModel.C11.Model
+open Tbox.Util Tbox.C11
+
+def evStr : Ev → String
+  | .init n ok => "i" ++ toString n ++ (if ok then "+" else "-")
+  | .start n ok => "s" ++ toString n ++ (if ok then "+" else "-")
+  | .stop n => "t" ++ toString n
+  | .cleanup n => "c" ++ toString n
+
+def trStr (tr : List Ev) : String := if tr.isEmpty then "-" else ",".intercalate (tr.map evStr)
+
+def stStr : St → String | .none => "N" | .inited => "I" | .running => "R"
+
+def statesStr (f : Forest) : String :=
+  let l := f.states
+  if l.isEmpty then "-" else ",".intercalate (l.map fun p => toString p.1 ++ ":" ++ stStr p.2)
+
+def bool? : String → Option Bool | "0" => some false | "1" => some true | _ => none
+def id? (w : String) : Option Nat := do
+  let n ← w.toNat?
+  if n < 1000 then some n else none
+
+def line (ret : Bool) (tr : List Ev) (f : Forest) : String :=
+  "P ret=" ++ (if ret then "1" else "0") ++ " tr=" ++ trStr tr ++ " st=" ++ statesStr f
+
+def isCleanup : Ev → Bool | .cleanup _ => true | _ => false
+def isStop : Ev → Bool | .stop _ => true | _ => false
+def isFail : Ev → Bool | .init _ false => true | .start _ false => true | _ => false
+
+def sizeTag (m : Mod) : String :=
+  let n := m.ids.length
+  if n ≤ 1 then "n1" else if n ≤ 3 then "n2-3" else if n ≤ 6 then "n4-6" else "n7+"
+
+def upTag (what : String) (roll : Ev → Bool) (ret : Bool) (tr : List Ev) : String :=
+  if ret then (if tr.any isFail then what ++ "-ok-optfail" else what ++ "-ok")
+  else if tr.isEmpty then what ++ "-gated"
+  else if tr.any roll then (if (tr.filter roll).length ≥ 2 then what ++ "-rollback-deep" else what ++ "-rollback")
+  else what ++ "-fail-own"
+
+def replaceRoot (f : Forest) (n : Nat) (m : Mod) : Forest := f.map fun x => if x.id == n then m else x
+
+def stepOp (rb : Bool) (f : Forest) (ws : List String) : Option (Forest × List String) :=
+  match ws with
+  | ["new", n, nm, c, i, s] => do
+      let n ← id? n; let nm ← bool? nm; let c ← bool? c; let i ← bool? i; let s ← bool? s
+      if (f.find n).isSome then none
+      else
+        let f' := f ++ [Mod.node ⟨n, nm, c, i, s, .none⟩ .nil]
+        pure (f', ["B new", line true [] f'])
+  | ["add", p, c, r] => do
+      let p ← id? p; let c ← id? c; let r ← bool? r
+      let (f', ok) ← f.add p c r
+      let tag := if ok then "add-ok"
+        else if (f.root? c).isNone then "add-fail-hasparent"
+        else if ((f.find p).map fun m => m.info.st != .none) == some true then "add-fail-state"
+        else "add-fail-dupname"
+      pure (f', ["B " ++ tag, line ok [] f'])
+  | ["set", n, c, i, s] => do
+      let n ← id? n; let c ← bool? c; let i ← bool? i; let s ← bool? s
+      if (f.find n).isNone then none
+      else
+        let f' := f.map (Mod.setFlags n c i s)
+        pure (f', ["B set", line true [] f'])
+  | [op, n] => do
+      let n ← id? n
+      let t ← f.root? n
+      match op with
+      | "init" =>
+          let r := initM rb t
+          let f' := replaceRoot f n r.1
+          pure (f', ["B " ++ upTag "init" isCleanup r.2.1 r.2.2 ++ " " ++ sizeTag t, line r.2.1 r.2.2 f'])
+      | "start" =>
+          let r := start rb t
+          let f' := replaceRoot f n r.1
+          pure (f', ["B " ++ upTag "start" isStop r.2.1 r.2.2, line r.2.1 r.2.2 f'])
+      | "stop" =>
+          let r := stop true t
+          let f' := replaceRoot f n r.1
+          pure (f', ["B " ++ (if r.2.isEmpty then "stop-noop" else "stop-some"), line true r.2 f'])
+      | "cleanup" =>
+          let r := cleanup true t
+          let f' := replaceRoot f n r.1
+          pure (f', ["B " ++ (if r.2.isEmpty then "cleanup-noop" else if r.2.any isStop then "cleanup-with-stop" else "cleanup-only"),
+                     line true r.2 f'])
+      | "destroy" =>
+          let tr := destroy t
+          let f' := f.filter fun x => x.id != n
+          pure (f', ["B " ++ (if tr.isEmpty then (if t.allNone then "destroy-clean" else "destroy-silent-skip") else "destroy-emits"),
+                     line true tr f'])
+      | _ => none
+  | _ => none
+
+def stepLine (rb : Bool) (f : Forest) (ln : String) : Forest × List String :=
+  let ws := words ln
+  match ws with
+  | [] => (f, [])
+  | "case" :: _ => ([], [ln.trimAscii.toString])
+  | _ =>
+    match stepOp rb f ws with
+    | none => (f, ["bad-op"])
+    | some r => r
+
+def main (args : List String) : IO Unit :=
+  runDriver ([] : Forest) (stepLine (!(args.contains "orig")))
